@@ -219,8 +219,9 @@ def make_builtins(ex):
             return
         if isinstance(x, Tmpl):
             # int(str(k)) == k  (library axiom L5) for a template that is exactly one int atom
-            if len(x.parts) == 1 and isinstance(x.parts[0], Atom) and x.parts[0].kind == "int":
-                raise Unsupported("int() of formatted symbolic integer")
+            if len(x.parts) == 1 and isinstance(x.parts[0], Atom) and x.parts[0].kind == "int" and x.parts[0].term is not None:
+                yield st, SInt(x.parts[0].term)  # library axiom L5: int(str(k)) == k
+                return
             raise Unsupported("int() of symbolic string")
         yield st, vals.py_int(x, ex.needer(st, node))
 
@@ -407,6 +408,13 @@ def call_ext(ex, fv, args, kwargs, st, node):
                 raise Unsupported(f"timedelta({k}=...)")
             tot = tot + mult[k] * to_int_term(v)
         yield st, TimeDeltaV(z3.simplify(tot))
+        return
+    if n in ("datetime.datetime.fromtimestamp",):
+        from .timevals import DateTimeV, tzoff_back
+
+        x = to_real_term(vals.num_coerce(args[0], ex.needer(st, node)))
+        u = z3.ToInt(x)
+        yield st, DateTimeV(z3.simplify(u + tzoff_back(u)), 0)
         return
     if n in ("datetime.datetime",):
         from .timevals import DateTimeV
@@ -596,6 +604,9 @@ def method_of(ex, obj, p, name):
             def f(ex, st, args, kwargs, node):
                 if isinstance(p, str):
                     yield st, p.upper()
+                    return
+                if all((not isinstance(q, str)) or q.upper() == q for q in p.parts) and all(isinstance(q, str) or q.kind == "int" for q in p.parts):
+                    yield st, p  # upper-case literals and digits: unchanged
                     return
                 raise Unsupported("upper of template")
             return mk(f)
